@@ -386,3 +386,39 @@ UNITS += [
                       "NOT PROMOTED: CELER_ASSERT(secondary.energy > 0 && unit direction), CELER_ASSERT(!geo.is_on_boundary())"],
          note="ProcessSecondariesExecutor: every valid secondary gets one id and becomes exactly one track (stored or in place); stores go to consecutive indices of the slot's private range inside the buffer and nothing else is overwritten; inactive slots create nothing; the slot is never left killed"),
 ]
+
+
+def build_make_track_id(ctx):
+    from units.c16 import atomic_add
+    pc = ctx.func(UT, r"^make_track_id\(NativeCRef<TrackInitParamsData> const&,", [
+        Rule(r"state\.track_counters\.size\(\)", "state->num_events", 1, note="Collection::size()"),
+        Rule(r"auto result\s*=\s*atomic_add\(&state\.track_counters\[event\], TrackId::size_type\{1\}\);", "size_type result = atomic_add(&state->track_counters[event], (size_type)1);", 1, note="Collection[event] address (event < size by the EXPECT above); TrackId::size_type{1}"),
+        Rule(r"return TrackId\{result\};", "return result;", 1, note="OpaqueId construction"),
+    ], name="detail::make_track_id")
+    return (HDR + ID_TYPES + "#include <stdlib.h>\ntypedef struct { size_type* track_counters; size_type num_events; } TrackInitStateData;\n" + atomic_add(ctx) + """
+size_type g_e; size_type g_olde;     /* ghost: another event's counter (frame) */
+size_type make_track_id(TrackInitStateData* state, size_type event)
+__CPROVER_requires(state != 0 && state->num_events >= 1 && state->num_events <= 64 && __CPROVER_rw_ok(state->track_counters, state->num_events * sizeof(size_type)))
+__CPROVER_requires(event < state->num_events)      /* own CELER_EXPECT */
+__CPROVER_requires(g_e < state->num_events && g_olde == state->track_counters[g_e])
+__CPROVER_assigns(state->track_counters[event])
+/* returns the event's next id and advances that event's counter by one: ids handed out for one event are consecutive, hence unique; other events untouched */
+__CPROVER_ensures(__CPROVER_return_value == __CPROVER_old(state->track_counters[event]) && state->track_counters[event] == __CPROVER_old(state->track_counters[event]) + 1)
+__CPROVER_ensures(g_e != event ==> state->track_counters[g_e] == g_olde)
+{""" + pc.body + """}
+void h_mti(void)
+{
+    size_type n, ev, e2; __CPROVER_assume(n >= 1 && n <= 64);
+    size_type* c = malloc(n * sizeof(size_type)); __CPROVER_assume(c != 0);
+    TrackInitStateData s = {c, n}; g_e = e2; if (e2 < n) g_olde = c[e2];
+    make_track_id(&s, ev);
+    VERIF_CANARY();
+}
+""")
+
+
+UNITS += [
+    Unit("c02_make_track_id", build_make_track_id, "h_mti", enforce="make_track_id", timeout=120, must_have=[r"make_track_id.postcondition", r"celer_expect"], checks=["--bounds-check", "--pointer-check"],
+         assumptions=["atomic_add treated as sequential read-modify-write"],
+         note="make_track_id: returns the event's counter and increments it (consecutive, hence unique ids per event); other events' counters untouched"),
+]
